@@ -20,12 +20,22 @@ META = {
              "constant preservation, Kronecker separability and pad/valid/trim = index definition on every (dim, PSF, BC) of the "
              "bounded instance, the defining relations of the Abel quadrature, Wang's cubic, the Poisson stencil and explicit heat "
              "steps on rational instances, and the object-consistency invariants (SameModel, SameData, SameGeometries, ExactData = "
-             "model(exactSolution), NoiseRelation, PosteriorIsLikPlusPrior) on a 7-action construction machine over the option "
+             "model(exactSolution), NoiseRelation, PosteriorIsLikPlusPrior) on a 9-action construction machine over the option "
              "lattice; every constructor argument with a default is a pair <given, value> and the spec's Used(arg) = IF given THEN "
              "value ELSE documented default (invariants GivenIsUsed, ExactSolutionIsGiven, GivenDataIsData; TableCovered: every option "
              "of the spec's option table that has an admissible value Python treats as false - 0, all-zero arrays - is in the lattice); "
              "every emitted case is replayed into the real Deconvolution1D (incl. legacy), Deconvolution2D, Heat1D, "
              "Poisson1D, Abel1D, WangCubic with scripted global normal draws, omitting the arguments that are not given. "
+             "Part D of TestProblems.tla: the field options of Poisson1D / Heat1D / Abel1D (field_type None / 'KL' / 'KL_Full' / 'Step' / "
+             "'CustomKL' / a Geometry OBJECT of each kind incl. a caller-defined class, field_params, map / imap resp. KL_map / KL_imap "
+             "given or not) are <given, value> pairs resolved by the action SelectGeometry into geometry objects of the heap (base = "
+             "documented class or the caller's object as is; a Mapped wrapper referring to base, map, imap whenever a map is given); "
+             "invariants MapGivenIsApplied (for EVERY form of field_type: domain geometry = Mapped(base, map, imap) and forward = "
+             "solution operator o map o par2fun_base, exact over the integers / rationals for Continuous1D, StepExpansion, the "
+             "caller's class and the maps 2x+1, x^2+1), GeometryObjectUsedAsIs, FieldGeometryEverywhere, FieldExactData; deviation "
+             "GeometryObjectSkipsMap refuted; replayed with fresh map callables and geometry objects per case (identity of map / imap / "
+             "base object, class, par_dim, par2fun, forward, geometry of posterior / likelihood / exactSolution, exactData; the sine "
+             "expansions against an untouched reference geometry and the operator of an untouched plain twin). "
              "TestProblemsSeq.tla continues the machine on ONE assembled object (Fetch / SetData by a new likelihood, in place or "
              "set_data on the generic problem / SetPrior / refused assignments, cold and warm orders, there and back; invariants "
              "re-stated after every action, deviations StaleCacheAfterSetData / StaleCacheAfterSetPrior refuted) and every maximal "
@@ -34,7 +44,10 @@ META = {
     "note": ("Bounded sizes (1-D dim<=6/7, 2-D dim<=3/4). Not asserted because undocumented (recorded as observations): "
              "orientation (convolution vs correlation) of the legacy circulant matrix for a custom PSF, position of the Defocus "
              "PSF support, the definition of the SNR option (only: one scalar sigma shared by data and likelihood), number of "
-             "heat time steps (read from the public time grid). KL/Step field expansions belong to C13 and are not swept. Falsy option "
+             "heat time steps (read from the public time grid). The expansions themselves (KL / Step par2fun) belong to C13; here the "
+             "SELECTION of the geometry and the application of the map are swept; the class an Abel1D field_type STRING creates is not "
+             "documented (observed), Abel1D field_params and a CustomKL without trunc_term (fails on small grids) are not swept; Poisson1D "
+             "is evaluated for positive conductivity fields only. Falsy option "
              "values are swept only where they are admissible on the documented interface (all-zero PSF / phantom / exactSolution "
              "arrays, phantom_param = 0, legacy PSF_param = 0, max_time = 0, WangCubic data = 0); noise_std = 0, SNR = 0, PSF_param = 0 "
              "(non-legacy), PSF_size = 0 and an all-zero Poisson1D conductivity raise or are undefined and are listed with the reason "
@@ -602,7 +615,7 @@ def _geoms_compatible(gs):
 
 
 def check_problem(ctx, c, legacy_match):
-    """replay the 8 actions of one emitted behaviour (construction + get_components) and compare the final record"""
+    """replay the 9 actions of one emitted behaviour (construction + get_components) and compare the final record"""
     import cuqi
     key = _pkey(c)
     p = c["problem"]
@@ -649,7 +662,8 @@ def check_problem(ctx, c, legacy_match):
     # --- Part D: the field options (geometry selection, map applied for every form of field_type) ---
     if c.get("field", {}).get("fcase"):
         from cuqiverif import c17_field
-        c17_field.check_field(ctx, c, tp, extras, key, case, _quiet, _scripted, _same_geom)
+        if not c17_field.check_field(ctx, c, tp, extras, key, case, _quiet, _scripted, _same_geom):
+            return True
     # --- GetComponents ---
     comps = tp.get_components()
     model, data, info = comps
@@ -955,7 +969,7 @@ def run(ctx):
     rc = ctx.tlc("Conv", cfg="Conv.%s.cfg" % tier, workers=16, timeout=1500)
     ctx.model_must_hold(rc, "Conv")
     _tlc.cleanup(rc)            # (the emitted cases stay in memory; nothing is left under .work if the replay stops early)
-    # (every emitted "problem" case is a final state reached through all seven actions, so their presence - checked in
+    # (every emitted "problem" case is a final state reached through all nine actions, so their presence - checked in
     #  replay_models - is the non-vacuity of the actions; per-action coverage is measured in the thorough tier)
     rt = ctx.tlc("TestProblems", cfg="TestProblems.%s.cfg" % tier, workers=16, timeout=1500, extra_modules=("Conv.tla",),
                  require_actions=ACTIONS if tier == "thorough" else None)
@@ -992,8 +1006,9 @@ def run(ctx):
     if ex:
         ctx.sample({"case": {k: ex[0][k] for k in ("problem", "args", "used", "falsy", "wform", "data", "svec", "logd")}})
     ctx.rule = ("Conv: one case per (pd, n, m, BC, integer PSF) with the exact integer operator and index map; TestProblems: one case per "
-                "rational operator instance (abel/wang/poisson/heat) and one behaviour (8 actions) per option combination (arguments as "
-                "<given, value> pairs incl. the admissible falsy values of the spec's OptionTable); TestProblemsSeq: one behaviour per "
+                "rational operator instance (abel/wang/poisson/heat) and one behaviour (9 actions) per option combination (arguments as "
+                "<given, value> pairs incl. the admissible falsy values of the spec's OptionTable and the field options field_type x "
+                "field_params x map x imap x exactSolution of Poisson1D / Heat1D / Abel1D); TestProblemsSeq: one behaviour per "
                 "(option combination of the lean lattice, route, maximal sequence of Fetch / SetData / SetPrior / Refused with <= MaxRe "
                 "reassignments), compared after every Fetch; non-trivial = "
                 "distinct (problem family, comparison kind, configuration / behaviour, step)")
